@@ -160,9 +160,16 @@ func setErr(r *Res, err error) {
 	r.NoDocs = errors.Is(err, lungo.ErrNoDocuments)
 }
 
+// CatchPanics makes Exec convert a panic of the call into Res.Panic (default).
+// The panic check switches it off so that the stack reaches its own recover.
+var CatchPanics = true
+
 // Exec runs one call. ctx may be a session context.
 func Exec(ctx context.Context, client lungo.IClient, op *Op) (res Res) {
 	defer func() {
+		if !CatchPanics {
+			return
+		}
 		if p := recover(); p != nil {
 			res.Panic = fmt.Sprint(p)
 			res.Err = "panic: " + res.Panic
